@@ -18,7 +18,7 @@ from menpo.shape import DirectedGraph, PointCloud, Tree, UndirectedGraph
 
 STREAM = 48
 FAMILIES = ["pca_vec", "pca_obj", "gmrf_vec", "gmrf_obj"]
-GRAPHS = ["edgeless", "chain", "cycle", "random", "tree", "directed"]
+GRAPHS = ["edgeless", "chain", "cycle", "random", "tree", "directed", "directed_any", "tree_high_root"]
 
 
 def make_graph(kind, V, g):
@@ -41,6 +41,20 @@ def make_graph(kind, V, g):
         parents = sorted(int(g.randint(0, i)) for i in range(1, V))
         parents = [min(p, i) for i, p in enumerate(parents)]
         return Tree.init_from_edges(np.array([[parents[i - 1], i] for i in range(1, V)]), V, root_vertex=0)
+    if kind == "directed_any":
+        # every unordered pair at most once, in either orientation (higher -> lower too): no antiparallel pairs
+        e = set()
+        for i in range(V):
+            for j in range(i + 1, V):
+                if g.rand() < 0.5:
+                    e.add((i, j) if g.rand() < 0.5 else (j, i))
+        if not e:
+            e.add((V - 1, 0))
+        return DirectedGraph.init_from_edges(np.array(sorted(e)), V)
+    if kind == "tree_high_root":
+        # a path rooted at the highest vertex: every edge runs from the higher to the lower index
+        # (menpo's Tree constructor rejects e.g. a star with >= 4 children rooted there - its BFS-order check)
+        return Tree.init_from_edges(np.array([[i + 1, i] for i in range(V - 2, -1, -1)]), V, root_vertex=V - 1)
     if kind == "directed":
         e = {(i, j) for i in range(V) for j in range(i + 1, V) if g.rand() < 0.5}  # i<j only: no antiparallel pairs
         if not e:
@@ -56,7 +70,7 @@ def dense(p):
 class Increments(Machine):
     PROPERTY = "C11"
     NAME = "increments"
-    BUDGET = {"quick": {"runs": 16000, "wall": 75, "digests": 24, "block": 50},
+    BUDGET = {"quick": {"runs": 30000, "wall": 75, "digests": 24, "block": 50},
               "thorough": {"runs": 300000, "wall": 840, "digests": 128, "block": 200}}
     LEVEL = {"quick": "exploration", "thorough": "exploration"}
     RULE = ("a history = initial batch size + sequence of increment sizes over a seeded sample stream, for "
@@ -77,7 +91,8 @@ class Increments(Machine):
     REQUIRED_PROBES = ("chunk_of_1", "first_batch_below_d_then_crossing", "many_tiny_chunks",
                        "chunk_larger_than_all_before", "pca_centred", "pca_uncentred", "gmrf_sparse", "gmrf_dense",
                        "gmrf_subtraction", "gmrf_concatenation", "gmrf_bias1", "rejected_increment",
-                       "graph_edgeless", "graph_chain", "graph_cycle", "graph_tree", "graph_directed",
+                       "graph_edgeless", "graph_chain", "graph_cycle", "graph_tree", "graph_directed", "graph_directed_any",
+                       "graph_tree_high_root",
                        "object_backed", "malformed_increment_refused", "active_count_lowered_between_increments")
 
     @classmethod
